@@ -26,7 +26,8 @@ namespace IntSort
 abbrev Data := Array Int
 
 /-- The literal constants of `ints/int_sort.go` that the model reads instead of hard-wiring them.  The value the
-driver runs with is `genCfg`, regenerated from the source on every run (`Gen/SortConsts.lean`); the theorems are
+driver runs with is `genCfg`, regenerated from the source on every run (`Gen/SortConsts.lean`; an item whose place
+in the source is not recognised keeps the value written here in the comments); the theorems are
 proved for every configuration satisfying `Cfg.Admissible` (`Spec/IntSort.lean`), so a harmless retune of a
 tuning constant changes the model together with the code and leaves the proofs intact. -/
 structure Cfg where
@@ -34,16 +35,20 @@ structure Cfg where
   qsSmall : Int
   /-- `if b-a > 1` in `quickSort` -/
   qsMin : Int
-  /-- the gap 6 of the Shell pass -/
+  /-- the start `a + 6` of the Shell pass -/
   shellGap : Int
+  /-- its offset, `data[i-6]` -/
+  shellGapIdx : Int
   /-- `>> 1` in `m := int(uint(lo+hi) >> 1)` -/
   pivotShift : Nat
   /-- `if hi-lo > 40` -/
   nintherMin : Int
   /-- `s := (hi - lo) / 8` -/
   nintherDiv : Int
-  /-- the 2 of `lo+2*s`, `hi-1-2*s` -/
+  /-- the 2 of `lo+2*s` -/
   nintherMul : Int
+  /-- the 2 of `hi-1-2*s` -/
+  nintherMul2 : Int
   /-- `protect := hi-c < 5` -/
   protectMin : Int
   /-- `hi-c < (hi-lo)/4` -/
@@ -53,8 +58,10 @@ structure Cfg where
   /-- `child := 2*root + 1` -/
   heapMul : Int
   heapAdd : Int
-  /-- the sibling `child+1` -/
+  /-- the sibling test `child+1 < hi` -/
   heapSib : Int
+  /-- the sibling element `data[first+child+1]` -/
+  heapSibIdx : Int
   /-- `for i := (hi - 1) / 2` in `heapSort` -/
   heapBuildSub : Int
   heapBuildDiv : Int
@@ -68,16 +75,19 @@ def genCfg : Cfg where
   qsSmall := Gen.Sort.qsSmall
   qsMin := Gen.Sort.qsMin
   shellGap := Gen.Sort.shellGap
+  shellGapIdx := Gen.Sort.shellGapIdx
   pivotShift := Gen.Sort.pivotShift
   nintherMin := Gen.Sort.nintherMin
   nintherDiv := Gen.Sort.nintherDiv
   nintherMul := Gen.Sort.nintherMul
+  nintherMul2 := Gen.Sort.nintherMul2
   protectMin := Gen.Sort.protectMin
   dupsDiv := Gen.Sort.dupsDiv
   dupsMin := Gen.Sort.dupsMin
   heapMul := Gen.Sort.heapMul
   heapAdd := Gen.Sort.heapAdd
   heapSib := Gen.Sort.heapSib
+  heapSibIdx := Gen.Sort.heapSibIdx
   heapBuildSub := Gen.Sort.heapBuildSub
   heapBuildDiv := Gen.Sort.heapBuildDiv
   mdShift := Gen.Sort.mdShift
@@ -140,7 +150,7 @@ def insertionSort (d : Data) (a b : Int) : Outcome Data := insertOuter d a b (a+
 condition are `cfg.heapSib`, the `++` is `+1`). -/
 def pickChild (c : Cfg) (d : Data) (first child hi : Int) : Outcome Int :=
   if child + c.heapSib < hi then
-    match lt d (first+child) (first+child+c.heapSib) with
+    match lt d (first+child) (first+child+c.heapSibIdx) with
     | .ok true => .ok (child+1)
     | .ok false => .ok child
     | .panic => .panic
@@ -375,7 +385,7 @@ def ninther (c : Cfg) (d : Data) (lo hi m : Int) : Outcome Data :=
     match medianOfThree d lo (lo+s) (lo+c.nintherMul*s) with
     | .ok d1 =>
       match medianOfThree d1 m (m-s) (m+s) with
-      | .ok d2 => medianOfThree d2 (hi-1) (hi-1-s) (hi-1-c.nintherMul*s)
+      | .ok d2 => medianOfThree d2 (hi-1) (hi-1-s) (hi-1-c.nintherMul2*s)
       | .panic => .panic
       | .outOfFuel => .outOfFuel
     | .panic => .panic
@@ -443,7 +453,7 @@ def doPivot (cfg : Cfg) (d : Data) (lo hi : Int) : Outcome (Data × Int × Int) 
 /-- `for i := a + 6; i < b; i++ { if data[i] < data[i-6] { swap i, i-6 } }` from the current `i`. -/
 def shellPass (c : Cfg) (d : Data) (b i : Int) : Outcome Data :=
   if _h : i < b then
-    match swapIfLt d i (i-c.shellGap) with
+    match swapIfLt d i (i-c.shellGapIdx) with
     | .ok d' => shellPass c d' b (i+1)
     | .panic => .panic
     | .outOfFuel => .outOfFuel
